@@ -13,6 +13,7 @@ import SplinkVerif.Drv.Accuracy
 import SplinkVerif.Drv.Serialise
 import SplinkVerif.Drv.Creators
 import SplinkVerif.Drv.Entry
+import SplinkVerif.Drv.OneToOne
 /-! Line-protocol driver: one JSON object per input line, one JSON object per output line. -/
 open Lean SplinkVerif.Drv
 
@@ -39,6 +40,8 @@ def dispatch (j : Json) : Except String Json := do
   | "ser_load" => handleSerLoad j
   | "creator_calls" => handleCreatorCalls j
   | "entry" => handleEntry j
+  | "sbl" => handleSBL j
+  | "sbl_all" => handleSBLAll j
   | "ping" => pure (Json.mkObj [("pong", Json.bool true)])
   | _ => throw s!"unknown op {op}"
 
